@@ -284,7 +284,16 @@ func cmdCheck(id, tier string) int {
 			b, _ := json.MarshalIndent(rf, "", " ")
 			os.WriteFile(path, b, 0o644)
 			status := "not-replayable"
-			if !res.Cfg.NoReplay && os.Getenv("VERIF_NOREPLAY") == "" {
+			if v.Kind == "race" && os.Getenv("VERIF_NOREPLAY") == "" {
+				// confirmation with Go's race detector is attempted for every harness; the native run need
+				// not take the path of the symbolic one, so a miss does not make the verdict spurious
+				if ok, _, err := nativeReplay(ld, &rf); err == nil && ok {
+					status = "reproduced by go test -race"
+					replayed++
+				} else {
+					status = "happens-before verdict; go test -race of the harness did not hit it"
+				}
+			} else if !res.Cfg.NoReplay && os.Getenv("VERIF_NOREPLAY") == "" {
 				ok, out, err := nativeReplay(ld, &rf)
 				if err != nil {
 					status = "replay-error: " + err.Error()
